@@ -66,3 +66,17 @@ Proof.
 Qed.
 Print Assumptions C14_source.
 Definition C14_source_skeleton := mmc_skeleton_ok.
+
+(* the outer loop of _fit_full as TRANSLATED on this run (gen/Src_mmc.v: the accept / reject decision `satisfy and (obj > obj_previous
+   or cycle == 0)`, the updates of A, A_old, alpha and the direction in either branch, the convergence break), with its real
+   step-size history; the projected matrix and its flag, the objective values, the direction and the convergence test are oracle
+   records, one per cycle.  For every carrier, every number of cycles and every oracle: the matrix fit returns (A_old) is the one it
+   started with or a projected iterate whose `satisfy` flag was set - by C14_source's last clause, one that meets the 1% budget. *)
+Definition C14_outer_source_stmt : Prop :=
+  forall (orc : list (Rm * bool * R * R * Rm * bool)) cycle st,
+    mmc_kept (@mmc_cycles ROps cycle st orc) = mmc_kept st \/
+    exists A op ob Mn stop, In (A, true, op, ob, Mn, stop) orc /\ mmc_kept (@mmc_cycles ROps cycle st orc) = A.
+
+Theorem C14_outer_source : C14_outer_source_stmt.
+Proof. exact (@mmc_kept_feasible ROps). Qed.
+Print Assumptions C14_outer_source.
